@@ -228,8 +228,7 @@ def writer_layout(ctx, inst, body):
     return out
 
 
-def check_record(ctx):
-    inst = "C10.record"
+def check_record(ctx, inst="C10.record"):
     for impl, spec in SPEC["record"].items():
         pr = impl_fn(ctx, inst, impl, "parse_record")
         sw = impl_fn(ctx, inst, impl, "serialize_record_into")
